@@ -149,7 +149,8 @@ def layout(asm, lines, compress=False, force_fences=False, eol='\n', preseed=Non
         fl.append(FENCE % i)
         fl.append(ln)
     fl.append(FENCE % n)
-    o2 = observe(asm, eol.join(fl) + eol, compress, tap=False, preseed=preseed)
+    # (the fence offsets come from the label table, so this second build asks for the tables even if the first did not)
+    o2 = observe(asm, eol.join(fl) + eol, compress, tap=False, preseed={k: v for k, v in (preseed or {}).items() if k != 'notables'} or None)
     if not o2.ok or o2.out != obs.out:
         lay.why = 'fence-label rendering did not reproduce the build'
         return lay
